@@ -1042,6 +1042,7 @@ class ConstructedPayloadDecoderBase(AbstractConstructedPayloadDecoder):
                                                            **dict(options, allowEoo=True)):
                                     if isinstance(component, SubstrateUnderrunError):
                                         yield component
+                                        continue
 
                                     if component is eoo.endOfOctets:
                                         break
@@ -1206,6 +1207,7 @@ class ChoicePayloadDecoder(ConstructedPayloadDecoderBase):
 
                 if isinstance(component, SubstrateUnderrunError):
                     yield component
+                    continue
 
                 if component is eoo.endOfOctets:
                     break
